@@ -205,7 +205,7 @@ theorem alignedV_batchTF_cat (a0 : Nat) (ops : List Operand) (d : DimArg) (f : B
                       simp only [axes?, Option.some.injEq] at hxa
                       subst hxa
                       exact halx.2.2.2 rfl
-                  exact alignedV_ffResult a0 data _ a' hcount hprov this
+                  exact alignedV_ffResult a0 data _ a' hprov this
             · exact alignedV_ibResult a0 data _ hprov
 
 end Deepali.Dispatch
